@@ -616,19 +616,23 @@ impl LyNative for IterReduce {
 
     let mut iter = args[0].to_obj().to_enumerator();
 
-    while !is_falsey(iter.next(hooks)?) {
-      let current = iter.current();
-      accumulator = hooks.call(callable, &[accumulator, current])?;
+    // an error from the iterator or the callback must not leave the roots behind
+    let result = (|| {
+      while !is_falsey(iter.next(hooks)?) {
+        let current = iter.current();
+        accumulator = hooks.call(callable, &[accumulator, current])?;
 
-      // the value the callback returned is held by nothing else while the
-      // iterator and the next callback allocate
-      hooks.pop_roots(1);
-      hooks.push_root(accumulator);
-    }
+        // the value the callback returned is held by nothing else while the
+        // iterator and the next callback allocate
+        hooks.pop_roots(1);
+        hooks.push_root(accumulator);
+      }
+
+      Call::Ok(accumulator)
+    })();
 
     hooks.pop_roots(2);
-
-    Call::Ok(accumulator)
+    result
   }
 }
 
@@ -661,14 +665,18 @@ impl LyNative for IterEach {
 
     hooks.push_root(callable);
 
-    while !is_falsey(iter.next(hooks)?) {
-      let current = iter.current();
-      hooks.call(callable, &[current])?;
-    }
+    // an error from the iterator or the callback must not leave the root behind
+    let result = (|| {
+      while !is_falsey(iter.next(hooks)?) {
+        let current = iter.current();
+        hooks.call(callable, &[current])?;
+      }
+
+      Call::Ok(VALUE_NIL)
+    })();
 
     hooks.pop_roots(1);
-
-    Call::Ok(VALUE_NIL)
+    result
   }
 }
 
@@ -717,20 +725,29 @@ impl Enumerate for ZipIterator {
     let mut results = hooks.manage_obj(&*vec![VALUE_NIL; self.iters.len()]);
 
     hooks.push_root(results);
-    for (iter, slot) in &mut self.iters.iter_mut().zip(results.iter_mut()) {
-      let next = iter.next(hooks)?;
 
-      if is_falsey(next) {
-        hooks.pop_roots(1);
-        return Call::Ok(val!(false));
+    // an error from one of the iterators must not leave the root behind
+    let filled = (|| {
+      for (iter, slot) in &mut self.iters.iter_mut().zip(results.iter_mut()) {
+        let next = iter.next(hooks)?;
+
+        if is_falsey(next) {
+          return Ok(false);
+        }
+
+        *slot = iter.current();
       }
 
-      *slot = iter.current();
-    }
+      Ok(true)
+    })();
     hooks.pop_roots(1);
 
-    self.current = val!(results);
-    Call::Ok(val!(true))
+    if filled? {
+      self.current = val!(results);
+      Call::Ok(val!(true))
+    } else {
+      Call::Ok(val!(false))
+    }
   }
 
   fn size_hint(&self) -> Option<usize> {
@@ -889,16 +906,20 @@ impl LyNative for IterAll {
 
     hooks.push_root(callable);
 
-    while !is_falsey(iter.next(hooks)?) {
-      let current = iter.current();
-      if is_falsey(hooks.call(callable, &[current])?) {
-        hooks.pop_roots(1);
-        return Call::Ok(val!(false));
+    // an error from the iterator or the callback must not leave the root behind
+    let result = (|| {
+      while !is_falsey(iter.next(hooks)?) {
+        let current = iter.current();
+        if is_falsey(hooks.call(callable, &[current])?) {
+          return Call::Ok(val!(false));
+        }
       }
-    }
+
+      Call::Ok(val!(true))
+    })();
 
     hooks.pop_roots(1);
-    Call::Ok(val!(true))
+    result
   }
 }
 
@@ -911,16 +932,20 @@ impl LyNative for IterAny {
 
     hooks.push_root(callable);
 
-    while !is_falsey(iter.next(hooks)?) {
-      let current = iter.current();
-      if !is_falsey(hooks.call(callable, &[current])?) {
-        hooks.pop_roots(1);
-        return Call::Ok(val!(true));
+    // an error from the iterator or the callback must not leave the root behind
+    let result = (|| {
+      while !is_falsey(iter.next(hooks)?) {
+        let current = iter.current();
+        if !is_falsey(hooks.call(callable, &[current])?) {
+          return Call::Ok(val!(true));
+        }
       }
-    }
+
+      Call::Ok(val!(false))
+    })();
 
     hooks.pop_roots(1);
-    Call::Ok(val!(false))
+    result
   }
 }
 
